@@ -8,4 +8,10 @@ fast:
 clean:
 	rm -rf build
 
-.PHONY: setup fast clean
+.PHONY: setup fast clean determinism mutants
+
+determinism:
+	python3 tools/determinism.py 200
+
+mutants:
+	tools/mutants_all.sh 0.5
